@@ -207,6 +207,22 @@ def run(ctx):
                 else:
                     sig = "C16:rendering"
                 ctx.violation(sig, "Sheet %d of a %d sheet workbook: read %s, documented %s" % (k, len(sheets), impl, want), case)
+        # ---- sheet numbers with more than one digit, requested through the CID's Sheet property --------------------------------
+        from cutplace import interface, validio
+        many_path = os.path.join(tmp, "many.xlsx")
+        write_workbook(many_path, [[[("T", "sheet%d" % (k_ + 1)), ("T", "x")]] for k_ in range(12)])
+        for want_sheet in (9, 10, 11, 12, 13, 20, 100):
+            cid_n = interface.Cid()
+            cid_n.read("c16n", [["D", "Format", "Excel"], ["D", "Sheet", str(want_sheet)], ["F", "a"], ["F", "b", "", "X"]])
+            try:
+                got_n = "ok %r" % list(validio.rows(cid_n, many_path))
+            except Exception as error:  # noqa
+                got_n = core.classify_exception(error)
+            want_n = ("ok %r" % [["sheet%d" % want_sheet, "x"]]) if want_sheet <= 12 else "data:Format"
+            ctx.count(key=("validio-sheet", want_sheet), branch="validio-sheet")
+            if got_n != want_n:
+                ctx.violation("C16:validio-sheet:%d" % want_sheet, "Sheet %d of a 12 sheet workbook through a CID: %s, expected %s" % (want_sheet, got_n, want_n), {"sheet": want_sheet, "got": got_n})
+        os.remove(many_path)
         # ---- writer round trip -----------------------------------------------------------------------------------------
         from cutplace import rowio
         for _ in range(20 if ctx.tier == "quick" else 200):
